@@ -13,6 +13,11 @@ Tie:
                (a) direct oracle in the property's words (closure of refs+HEAD still readable, identical type+bytes;
                    whatever disappeared was unreachable and older than the grace period),
                (b) model vs real: loose set, packs as id sets, returned pruned sets.
+  stale.maint  maintenance ops from a LONG-LIVED handle (packs cached / mmapped) after ANOTHER process (C git: branch
+               deletion + gc --prune=now + branch restored, repack -ad, repack + prune-packed, gc; a second dulwich
+               handle) has changed the pack directory; oracle as in `logical`, by a fresh store and by C git (cat-file,
+               fsck), whether the op returned or raised; model vs real with the handle's view of the packs (cached
+               entries whose files are gone included): resulting layout and whether PackFileDisappeared was raised.
   scheduler    reader actor(s) (store[id], id in store, iteration) interleaved at system-call granularity with a
                repacking actor (harness/sched.py); oracle: an object that exists throughout is never reported
                missing; model vs real: the sequence of system calls with outcomes, result and pack cache of every
@@ -446,7 +451,7 @@ def _canon_real(w: World, loose, packs):
     return f"L={_enc_ids(sorted(w.n(h) for h in loose))}|P={';'.join(sorted(ps)) if ps else '-'}"
 
 
-def build_repo(ctx, w: World, plan=None):
+def build_repo(ctx, w: World, plan=None, plain=False):
     """Random build phase.  Returns the list of build steps performed (for the evidence)."""
     from dulwich.repo import Repo
     from dulwich.object_store import DiskObjectStore
@@ -551,7 +556,7 @@ def build_repo(ctx, w: World, plan=None):
         w.set_age(w.objdir() / "pack" / (b + ".pack"), a)
         w.set_age(w.objdir() / "pack" / (b + ".idx"), a)
     # temp-file debris for object_store.prune()
-    if rng.random() < 0.4:
+    if not plain and rng.random() < 0.4:
         p = w.objdir() / f"tmp_pack_{rng.getrandbits(24):06x}"
         p.write_bytes(b"junk")
         w.set_age(p, rng.choice(AGES))
@@ -1689,6 +1694,266 @@ def _stream_git_repack(ctx, nscen, stream="sched.git", first_idx=500000):
 
 
 # ------------------------------------------------------------------------------------------------
+# stale.maint: maintenance from a LONG-LIVED handle whose pack cache another process has invalidated
+
+def _build_side_branch(w: World, main_packed: bool):
+    """main: commit cm (tree tm: blobs m0, m1); side: commit cs (parent cm, tree ts: blobs s0, m0).  The objects that only
+    the side branch reaches, U = {s0, ts, cs}, are stored in ONE pack holding exactly them."""
+    from dulwich.repo import Repo
+    from dulwich.objects import Blob, Tree, Commit
+    w.path.mkdir(parents=True)
+    repo = Repo.init_bare(str(w.path))
+    st = repo.object_store
+    salt = w.rng.getrandbits(30)
+
+    def commit(tree, parents, n):
+        c = Commit()
+        c.tree = tree.id
+        c.parents = [p.id for p in parents]
+        c.author = c.committer = b"A U Thor <a@example.com>"
+        c.author_time = c.commit_time = 1000 + n
+        c.author_timezone = c.commit_timezone = 0
+        c.message = b"c %d %d\n" % (salt, n)
+        return c
+    m0, m1, s0 = (Blob.from_string(b"%s %d\n" % (n, salt)) for n in (b"m0", b"m1", b"s0"))
+    tm = Tree()
+    tm.add(b"a", 0o100644, m0.id)
+    tm.add(b"b", 0o100644, m1.id)
+    ts = Tree()
+    ts.add(b"a", 0o100644, m0.id)
+    ts.add(b"s", 0o100644, s0.id)
+    cm = commit(tm, [], 0)
+    cs = commit(ts, [cm], 1)
+    for o, kids in ((m0, []), (m1, []), (s0, []), (tm, [m0, m1]), (ts, [m0, s0]), (cm, [tm]), (cs, [ts, cm])):
+        w._reg(o, [k.id.decode() for k in kids])
+    w.blobs, w.trees, w.commits, w.tags = [m0.id.decode(), m1.id.decode(), s0.id.decode()], \
+        [tm.id.decode(), ts.id.decode()], [cm.id.decode(), cs.id.decode()], []
+    if main_packed:
+        st.add_objects([(o, None) for o in (m0, m1, tm, cm)])
+    else:
+        for o in (m0, m1, tm, cm):
+            st.add_object(o)
+    st.add_objects([(o, None) for o in (s0, ts, cs)])
+    w.refs = {b"refs/heads/main": cm.id.decode(), b"refs/heads/side": cs.id.decode()}
+    for k, v in w.refs.items():
+        repo.refs[k] = v.encode()
+    repo.close()
+    w.head = ("sym", b"refs/heads/main")
+    w.write_head()
+    w.stored = set(w.objs)
+    return ["side-branch-in-own-pack", "main-" + ("packed" if main_packed else "loose")]
+
+
+def _fsck_bad(path: Path, env):
+    rc, out = core.sh(["git", "-C", str(path), "fsck", "--no-dangling", "--no-progress"], env=env, timeout=120)
+    return {l for l in out.splitlines() if l.startswith(("missing", "broken link", "error", "fatal", "bad "))}
+
+
+def _git_missing(path: Path, env, ids):
+    if not ids:
+        return []
+    p = subprocess.run(["git", "-C", str(path), "cat-file", "--batch-check"], input="".join(h + "\n" for h in ids).encode(),
+                       stdout=subprocess.PIPE, stderr=subprocess.STDOUT, env=env, timeout=120)
+    return [l.split()[0] for l in p.stdout.decode(errors="replace").splitlines() if l.endswith(" missing")]
+
+
+def _restore_closure(w: World, root_id):
+    """another process writes back (as loose files) whatever of the closure of `root_id` is not in the repository"""
+    from dulwich.object_store import DiskObjectStore
+    lo, pk = observe(w.objdir())
+    present = set(lo) | {h for ids, _ in pk.values() for h in ids} | set(w.alt_ids)
+    other = DiskObjectStore(str(w.objdir()))
+    try:
+        todo, seen = [root_id], set()
+        while todo:
+            h = todo.pop()
+            if h in seen or h not in w.sha:
+                continue
+            seen.add(h)
+            if h not in present:
+                other.add_object(w.sha[h])
+            todo.extend(w.kids.get(h, []))
+    finally:
+        other.close()
+
+
+def _external_actor(w: World, rng, env, kind):
+    """ANOTHER process changes the pack directory (and possibly refs, restored afterwards).  Returns a description."""
+    from dulwich.repo import Repo
+    from dulwich.gc import garbage_collect
+
+    def git(*a):
+        rc, out = core.sh(["git", "-C", str(w.path)] + list(a), env=env, timeout=180)
+        if rc != 0:
+            raise core.InfraError(f"git {' '.join(a)} failed: {out[-400:]}")
+    if kind == "git-branchD-gc-restore":
+        cands = sorted(k for k in w.refs if k != b"refs/heads/main") or sorted(w.refs)
+        if not cands:
+            kind = "git-gc-prune-now"
+        else:
+            # prefer the side branch of the targeted layout, else any ref
+            name = b"refs/heads/side" if b"refs/heads/side" in w.refs else rng.choice(cands)
+            val = w.refs[name]
+            git("update-ref", "-d", name.decode())
+            git("reflog", "expire", "--expire=now", "--all")
+            git("gc", "--prune=now", "-q")
+            _restore_closure(w, val)
+            git("update-ref", name.decode(), val)
+            return f"{kind}({name.decode()})"
+    if kind == "git-gc-prune-now":
+        git("reflog", "expire", "--expire=now", "--all")
+        git("gc", "--prune=now", "-q")
+    elif kind == "git-repack-ad":
+        git("repack", "-a", "-d", "-q")
+    elif kind == "git-repack-prune-packed":
+        git("repack", "-q")
+        git("prune-packed", "-q")
+    elif kind == "git-gc":
+        git("gc", "-q")
+    elif kind.startswith("dulwich-"):
+        other = Repo(str(w.path))
+        try:
+            if kind == "dulwich-repack":
+                other.object_store.repack()
+            elif kind == "dulwich-gc0":
+                garbage_collect(other, grace_period=0)
+            else:
+                other.object_store.pack_loose_objects()
+        finally:
+            other.close()
+    return kind
+
+
+STALE_ACTORS = ["git-branchD-gc-restore", "git-branchD-gc-restore", "git-gc-prune-now", "git-repack-ad",
+                "git-repack-prune-packed", "git-gc", "dulwich-repack", "dulwich-gc0", "dulwich-packloose"]
+STALE_OPS = [("packloose", None), ("packloose", None), ("repack", None), ("gc", 0), ("gc", None), ("gc", 3600),
+             ("prune", None), ("prune", 0)]
+
+
+def stale_case(ctx, idx, stream="stale.maint", targeted=None):
+    """targeted = (main_packed, warm, actor, [ops]) for the side-branch layout, else a random repository."""
+    from dulwich.repo import Repo
+    from dulwich.pack import PackFileDisappeared
+    rng = _case_rng(ctx, "st", idx)
+    w = World(rng, ctx.scratch / f"st{idx}")
+    env = core.clean_env()
+    if targeted is not None:
+        main_packed, warm, actor, ops = targeted
+        steps = _build_side_branch(w, main_packed)
+    else:
+        steps = build_repo(ctx, w, plain=True)
+        warm = rng.choice(["listed", "idx", "idx", "data"])
+        actor = rng.choice(STALE_ACTORS)
+        ops = [rng.choice(STALE_OPS) for _ in range(rng.randint(1, 3))]
+    recs = []
+    repo = Repo(str(w.path))          # the long-lived handle
+    try:
+        st = repo.object_store
+        _, known = observe(w.objdir())
+        known = dict(known)
+        st.packs                      # scan: packs cached
+        for pk_ in list(st._pack_cache.values()):
+            if warm in ("idx", "data"):
+                pk_.index
+            if warm == "data":
+                pk_.data
+        if w.stored and warm == "data":
+            for h in rng.sample(sorted(w.stored), min(2, len(w.stored))):
+                try:
+                    st.get_raw(h.encode())
+                except KeyError:
+                    pass
+        did = _external_actor(w, rng, env, actor)
+        if targeted is None and rng.random() < 0.4:
+            mutate_refs(w, rng)       # by yet another (fresh) handle
+        for si, (opk, g) in enumerate(ops):
+            op = {"op": opk, "grace": g, "fresh": False, "all": True}
+            cached = list(st._pack_cache.keys())
+            loose0, packs0 = observe(w.objdir())
+            known.update(packs0)
+            alt_ids = set(w.alt_ids)
+            present0 = set(loose0) | {h for ids, _ in packs0.values() for h in ids} | alt_ids
+            clos = w.closure(w.roots(), present0)
+            expected = sorted(clos & present0)
+            bad_before = _fsck_bad(w.path, env)
+            now = int(time.time())
+            order = [b for b in cached if b in packs0] + [b for b in sorted(packs0) if b not in cached]
+            view = []
+            for b in cached:
+                if b in packs0:
+                    view.append(f"{packs0[b][1]}:{_enc_ids(sorted(w.n(h) for h in packs0[b][0]))}")
+                else:
+                    view.append(f"0:{_enc_ids(sorted(w.n(h) for h in known.get(b, (set(), 0))[0]))}")
+            view += [f"{packs0[b][1]}:{_enc_ids(sorted(w.n(h) for h in packs0[b][0]))}" for b in order if b not in cached]
+            args = _model_state_args(w, loose0, packs0, order, alt_ids)
+            mline = f"c10.stepv {args} {';'.join(view) or '-'} {MODEL_OP[opk]} {'none' if g is None else g} {now}"
+            n_stale = sum(1 for b in cached if b not in packs0)
+            try:
+                run_real_op(w, repo, op)
+                exc = None
+            except Exception as e:
+                exc = e
+            loose1, packs1 = observe(w.objdir())
+            case = {"kind": "stale", "case": idx, "seed": ctx.seed, "targeted": targeted, "build": steps, "warm": warm,
+                    "external": did, "op": [opk, g], "step": si, "stale_cached_packs": n_stale,
+                    "raised": None if exc is None else f"{type(exc).__name__}: {exc}"[:160]}
+            ctx.count(stream, (idx, si, opk, str(g), did, warm), True,
+                      f"{did.split('(')[0]}:{opk}:{'stale' if n_stale else 'fresh'}:{'raised' if exc else 'ok'}")
+            # ---- oracle: everything reachable from refs + HEAD right now is still there, for dulwich and for git
+            got, _refs = _read_all(w.path, expected)
+            badobj = [h for h in expected if got[h] != w.objs[h]]
+            if badobj:
+                h = badobj[0]
+                ctx.oracle_fail(stream, dict(case, object=h, n_bad=len(badobj)),
+                                f"object reachable from refs/HEAD is {'missing' if got[h] is None else 'changed'} after "
+                                f"{opk}(grace={g}) from a long-lived handle ({n_stale} cached pack(s) removed by {did}; op "
+                                f"{'raised ' + type(exc).__name__ if exc else 'returned'}): {h}", None)
+            else:
+                miss = _git_missing(w.path, env, expected)
+                new_bad = _fsck_bad(w.path, env) - bad_before
+                if miss or new_bad:
+                    ctx.oracle_fail(stream, dict(case, git_missing=miss[:5], fsck=sorted(new_bad)[:5]),
+                                    f"C git no longer finds reachable objects after {opk}(grace={g}) from a long-lived handle: "
+                                    f"{(miss or sorted(new_bad))[0]}", None)
+            recs.append((mline, case, _canon_real(w, loose1, packs1), exc, PackFileDisappeared))
+            known.update(packs1)
+    finally:
+        repo.close()
+        shutil.rmtree(w.path, ignore_errors=True)
+        shutil.rmtree(str(w.path) + "-alt", ignore_errors=True)
+    return recs
+
+
+def _compare_stale(ctx, recs, stream):
+    consts = _consts(ctx)
+    outs = ctx.driver.batch([r[0] for r in recs])
+    for (mline, case, real_state, exc, PFD), o in zip(recs, outs):
+        ctx.count(stream + ".model", (case["case"], case["step"], real_state), True)
+        parts = o.split("|raised=")
+        if len(parts) != 2:
+            ctx.disagree(stream + ".model", dict(case, line=mline[:500]), o, real_state)
+            continue
+        real_raised = "1" if isinstance(exc, PFD) else ("0" if exc is None else type(exc).__name__)
+        if parts[0] != real_state or parts[1] != real_raised:
+            ctx.disagree(stream + ".model", dict(case, line=mline[:500]), o, f"{real_state}|raised={real_raised}")
+
+
+def _stream_stale(ctx, ncases, stream="stale.maint", first_idx=0):
+    recs = []
+    k = 0
+    # the layout of the seeded scenario first: every warm level x the maintenance ops, main branch packed or loose
+    for main_packed in (True, False):
+        for warm in ("listed", "idx", "data"):
+            for ops in ([("packloose", None)], [("repack", None)], [("packloose", None), ("gc", 0)], [("gc", None)],
+                        [("prune", None), ("packloose", None)]):
+                recs += stale_case(ctx, first_idx + 700000 + k, stream, (main_packed, warm, "git-branchD-gc-restore", ops))
+                k += 1
+    for i in range(ncases):
+        recs += stale_case(ctx, first_idx + i, stream)
+    _compare_stale(ctx, recs, stream)
+
+
+# ------------------------------------------------------------------------------------------------
 # corpus (negation witnesses of the known findings + regression cases), run first
 
 def _run_corpus(ctx):
@@ -1732,6 +1997,7 @@ def run(ctx: core.Ctx):
     ctx.extra_cov["translated_constants"] = c
     _run_corpus(ctx)
     _stream_logical(ctx, ctx.budget(120, mult=10))
+    _stream_stale(ctx, ctx.budget(40, mult=8))
     if ctx.thorough:
         _stream_sched(ctx, 60, 2, 250, 30)
         _stream_sched(ctx, 16, 3, 400, 50, first_idx=100000)
@@ -1749,6 +2015,9 @@ def search(ctx: core.Ctx):
     _stream_logical(ctx, 300, stream="search.logical", first_idx=200000)
     if ctx.oracle_failures:
         return
+    _stream_stale(ctx, 150, stream="search.stale", first_idx=200000)
+    if ctx.oracle_failures:
+        return
     _stream_sched(ctx, 16, 3, 500, 60, stream="search.sched", first_idx=300000)
     if ctx.oracle_failures:
         return
@@ -1763,6 +2032,12 @@ def replay(ctx: core.Ctx, data: dict) -> int:
         recs = logical_case(ctx, c["case"], spec=c.get("spec"), stream="replay")
         if recs:
             _compare_logical(ctx, recs, "replay")
+    elif c.get("kind") == "stale":
+        t = c.get("targeted")
+        if t is not None:
+            t = (t[0], t[1], t[2], [tuple(o) for o in t[3]])
+        recs = stale_case(ctx, c["case"], "replay", t)
+        _compare_stale(ctx, recs, "replay")
     elif c.get("kind") == "sched":
         spec = c.get("spec")
         if spec:
